@@ -5,6 +5,8 @@
 mod args;
 mod config;
 mod parse;
+#[cfg(typeshare_verif)]
+mod verif;
 mod writer;
 
 use std::{
@@ -171,6 +173,10 @@ fn walker_builder(
         .types(types.build().context("Failed to build types")?)
         .overrides(overrides)
         .follow_links(options.follow_links);
+    #[cfg(typeshare_verif)]
+    if let Some(n) = verif::threads() {
+        walker_builder.threads(n);
+    }
     for root in directories.iter().skip(1) {
         walker_builder.add(root);
     }
